@@ -13,9 +13,17 @@ def _pools(rng, U):
     return [p for p in ps if p]
 
 
+def rand_amap(rng, lvl, U):
+    """index -> offset from 10.0.0.0: mixed digit widths, octet boundaries, sparse sets"""
+    off = rng.choice([0, 0, 5, 7, 95, 250])
+    if lvl == "pool" and rng.random() < 0.35:
+        return sorted(rng.sample(range(1, 700), U))
+    return [off + i for i in range(1, U + 1)]
+
+
 def rand_scenario(rng, lvl, n):
-    U = rng.choice([3, 3, 4, 5, 6])
-    ncl = rng.choice([2, 3, 3, 4, 6])
+    U = rng.choice([3, 3, 4, 5, 6, 9, 12])
+    ncl = rng.choice([2, 3, 3, 4, 6]) if U <= 6 else rng.choice([4, 8, U, U + 2])
     pools = _pools(rng, U)
     minl, maxl = rng.choice([(2, 4), (2, 10), (5, 5), (1, 30), (3, 9), (4, 6)])
     if lvl == "pkt":
@@ -59,6 +67,14 @@ def rand_scenario(rng, lvl, n):
                     st["nopolicy"] = True
                 if rng.random() < 0.05:
                     st["P"] = []
+                if rng.random() < 0.3:
+                    st["want"] = rng.choice([0, 1, 60, 299, 300, 301, 7200, 86400, 86401, 100000, 4294967295])
+                if rng.random() < 0.3:
+                    st["plist"] = rng.choice([[1, 3, 6, 15, 51, 54], [51], [], [1, 28, 2, 3, 15, 6, 119, 12, 44, 47, 26, 121, 42]])
+                if rng.random() < 0.2:
+                    st["hostname"] = [rng.randint(0, 255) for _ in range(rng.choice([0, 1, 5, 40]))]
+                if rng.random() < 0.1:
+                    st["vclass"] = rng.choice(["MSFT 5.0", "android-dhcp-13", ""])
             steps.append(st)
         elif r < 0.63 and lvl == "pkt":
             mt = rng.choice([-1, 0, 2, 4, 5, 6, 7, 8, 9, 13, 255, rng.randint(0, 255)])
@@ -75,7 +91,30 @@ def rand_scenario(rng, lvl, n):
             steps.append({"k": "metrics"})
         else:
             steps.append({"k": "list"})
-    return {"sc": "rand-%s-%d" % (lvl, n), "lvl": lvl, "U": U, "minl": minl, "maxl": maxl, "steps": steps}
+    return {"sc": "rand-%s-%d" % (lvl, n), "lvl": lvl, "U": U, "minl": minl, "maxl": maxl, "steps": steps,
+            "amap": rand_amap(rng, lvl, U)}
+
+
+def fill_scenario(rng, lvl, n):
+    """A pool filled to the brim by distinct clients, then newcomers and returners."""
+    U = rng.choice([6, 9, 12, 30])
+    L = 2 if lvl == "pool" else 300
+    full = list(range(1, U + 1))
+    steps = []
+    order = full[:]
+    rng.shuffle(order)
+    for i, x in enumerate(order):
+        st = {"k": "msg", "kind": rng.choice(["discover", "request"]), "c": i + 1, "req": x if rng.random() < 0.7 else 0, "P": full}
+        steps.append(st)
+        if rng.random() < 0.1:
+            steps.append({"k": "tick", "d": 1})
+    for j in range(6):
+        steps.append({"k": "msg", "kind": "discover", "c": U + 1 + j, "req": rng.choice([0, rng.choice(full)]), "P": full})
+    steps.append({"k": "tickto", "x": rng.choice(full), "off": rng.choice([-1, 0, 1])})
+    for j in range(8):
+        steps.append({"k": "msg", "kind": rng.choice(["discover", "request"]), "c": rng.randint(1, U + 6), "req": rng.choice([0, rng.choice(full)]), "P": full})
+    return {"sc": "fill-%s-%d" % (lvl, n), "lvl": lvl, "U": U, "minl": L, "maxl": 4 * L if lvl == "pool" else 86400, "steps": steps,
+            "amap": rand_amap(rng, lvl, U)}
 
 
 def directed_scenarios():
@@ -131,7 +170,8 @@ def tlc_scenarios(run, num, depth):
     hists = tlc_simulate(run, "LeaseGen", "LeaseGen.cfg", num, depth + 1, overrides={"Depth": str(depth)})
     out = []
     for i, h in enumerate(hists):
-        out.append({"sc": "tlc-pool-%d" % i, "lvl": "pool", "U": 3, "minl": 2, "maxl": 4, "steps": h})
+        amap = [[1, 2, 3], [8, 9, 10], [99, 100, 101], [254, 255, 256], [4, 30, 254]][i % 5]
+        out.append({"sc": "tlc-pool-%d" % i, "lvl": "pool", "U": 3, "minl": 2, "maxl": 4, "steps": h, "amap": amap})
         if i % 2 == 0:
             # same behaviour through handle_pkt: model seconds scaled to the default lease bounds
             steps = []
@@ -142,7 +182,7 @@ def tlc_scenarios(run, num, depth):
                 if s["k"] == "msg" and s.get("kind") == "request":
                     s["sid"] = (i // 2) % 2
                 steps.append(s)
-            out.append({"sc": "tlc-pkt-%d" % i, "lvl": "pkt", "U": 3, "steps": steps})
+            out.append({"sc": "tlc-pkt-%d" % i, "lvl": "pkt", "U": 3, "steps": steps, "amap": amap if amap[2] - amap[0] == 2 else [9, 10, 11]})
     return out
 
 
@@ -152,6 +192,7 @@ LEVEL_TEXT = {
     "C09": "a client keeps the address it holds in the serving pool; refusal only on exhaustion",
     "C10": "lease time carried, within bounds, covered by the stored record",
     "C13": "only DISCOVER/REQUEST for this server are answered or change the store; replies echo the request",
+    "C20": "get_leases() returns exactly the stored rows; the gauges equal |expiry > now| and |expiry <= now|, also on the empty store",
 }
 
 
@@ -163,6 +204,17 @@ def check(pid, tier):
         scen = directed_scenarios() + tlc_scenarios(run, nsim, depth)
         for i in range(nrand):
             scen.append(rand_scenario(run.rng, "pool" if i % 3 else "pkt", i))
+        for i in range(nrand // 6):
+            scen.append(fill_scenario(run.rng, "pool" if i % 3 else "pkt", i))
+        if pid == "C20":
+            # observe after every step
+            for s in scen:
+                st2 = [{"k": "metrics"}, {"k": "list"}]
+                for st in s["steps"]:
+                    st2.append(st)
+                    if st["k"] in ("msg", "tick", "tickto", "restart"):
+                        st2 += [{"k": "metrics"}] + ([{"k": "list"}] if st["k"] != "tick" else [])
+                s["steps"] = st2
         sf = run.path("scen.ndjson")
         with open(sf, "w") as fh:
             for s in scen:
